@@ -272,6 +272,10 @@ func (ex *Exec) call(fr *Frame, st *State, c *ssa.CallCommon, instr ssa.Instruct
 	if ex.prog.inModule(callee) && len(callee.Blocks) > 0 && ex.prog.isLoopFree(callee) && fr.depth < 4 && !ex.onStack(callee) {
 		return ex.inlineCallAt(fr, st, callee, args, nil)
 	}
+	if ex.prog.inModule(callee) && len(callee.Blocks) > 0 && fr.depth < 4 && !ex.onStack(callee) && isNewFunction(callee) {
+		ex.vc.note("new helper %s has no contract yet: inlined", callee.String())
+		return ex.inlineCallAt(fr, st, callee, args, nil)
+	}
 	// unknown callee
 	ex.havocClosureArgs(fr, st, c)
 	ex.vc.note("uncontracted-callee: %s (result havocked%s)", callee.String(), map[bool]string{true: ", heap havocked", false: ""}[ex.prog.inModule(callee)])
